@@ -18,6 +18,6 @@ CONSTANTS
   AbandonKeepsTargetId = FALSE
   DirectStaysActive = FALSE
   StaleInsertAfterScrub = FALSE
-INVARIANTS TypeOK NoLeak MapsSubsetUsed
+INVARIANTS TypeOK NoLeak MapsSubsetUsed GhostsRelease
 
 CHECK_DEADLOCK FALSE
